@@ -1,0 +1,27 @@
+/*
+ * SPDX-FileCopyrightText: © 2017-2025 Istari Digital, Inc.
+ * SPDX-License-Identifier: Apache-2.0
+ */
+
+package simd
+
+// Search finds the first idx for which xs[idx] >= k in xs (keys are at the even positions), or
+// len(xs)/2 if there is none.
+//
+// The assembly kernel looks at four keys per iteration and never compares their positions with
+// len(xs). It is therefore only given the longest prefix whose length is a multiple of 8; the
+// remaining (at most three) keys are checked here, so that nothing beyond len(xs) is ever read.
+func Search(xs []uint64, k uint64) int16 {
+	n := len(xs) &^ 7
+	if n > 0 {
+		if i := search8(xs[:n], k); int(i) < n/2 {
+			return i
+		}
+	}
+	for i := n; i < len(xs); i += 2 {
+		if xs[i] >= k {
+			return int16(i / 2)
+		}
+	}
+	return int16(len(xs) / 2)
+}
